@@ -110,11 +110,13 @@ type pathState struct {
 	preemptions  int
 	sampleWanted bool
 	choices      int
+	dom          map[*sym.Term]sym.Set256
+	entangled    map[*sym.Term]bool
 	witnesses    []Violation
 }
 
 func (ex *Exec) beginPath(prefix []Decision) {
-	ex.ps = pathState{prefix: prefix, reached: map[string]bool{}}
+	ex.ps = pathState{prefix: prefix, reached: map[string]bool{}, dom: map[*sym.Term]sym.Set256{}, entangled: map[*sym.Term]bool{}}
 	if ex.pinNext != nil {
 		ex.ps.pinMode = true
 		ex.ps.pinned = ex.pinNext.vals
@@ -154,6 +156,7 @@ func (ex *Exec) addPC(t *sym.Term) {
 	}
 	ex.ps.pc = append(ex.ps.pc, t)
 	ex.solver.Assert(t)
+	ex.noteConstraint(t)
 	ex.learn(t, true)
 }
 
@@ -259,11 +262,64 @@ func (ex *Exec) branch(cv value) bool {
 	panic(pathAbort{abortAssume, "path condition became unsatisfiable"})
 }
 
-// feasible: is PC ∧ t satisfiable? Single-variable 8-bit conditions are
-// decided by the byte-domain fast path when enabled, everything else by the
-// solver.
+// feasible: is PC ∧ t satisfiable? A condition over a single 8-bit variable
+// that so far occurs only in single-variable path constraints is decided by
+// evaluating it on the variable's remaining domain (complete for that
+// fragment); everything else goes to the SMT solver.
 func (ex *Exec) feasible(t *sym.Term) sym.Result {
+	if ex.FastPath {
+		if v := t.OneVar(); v != nil && v.W == 8 && !ex.ps.entangled[v] {
+			ts := ex.ctx.TruthSet(t)
+			d, ok := ex.ps.dom[v]
+			if !ok {
+				d = sym.FullSet()
+			}
+			for i := range ts {
+				ts[i] &= d[i]
+			}
+			ex.FastDecided++
+			if ex.CrossCheck && ex.FastDecided%97 == 0 {
+				r := ex.solver.CheckWith(t)
+				if (r == sym.Sat) == ts.Empty() {
+					panic(fmt.Sprintf("engine: fast path disagrees with solver on %s", sym.SMT(t)))
+				}
+			}
+			if ts.Empty() {
+				return sym.Unsat
+			}
+			return sym.Sat
+		}
+	}
 	return ex.solver.CheckWith(t)
+}
+
+// noteConstraint maintains the per-variable octet domains for the fast path.
+func (ex *Exec) noteConstraint(t *sym.Term) {
+	if !ex.FastPath {
+		return
+	}
+	if v := t.OneVar(); v != nil && v.W == 8 {
+		if ex.ps.entangled[v] {
+			return
+		}
+		ts := ex.ctx.TruthSet(t)
+		d, ok := ex.ps.dom[v]
+		if !ok {
+			d = sym.FullSet()
+		}
+		for i := range ts {
+			d[i] &= ts[i]
+		}
+		ex.ps.dom[v] = d
+		return
+	}
+	if t.NumVarsSat() >= 2 {
+		var vs []*sym.Term
+		sym.Vars(t, map[*sym.Term]bool{}, &vs)
+		for _, v := range vs {
+			ex.ps.entangled[v] = true
+		}
+	}
 }
 
 // choose forks over n alternatives that are all feasible by construction.
